@@ -1,4 +1,5 @@
 import ArrProofs.Lemmas.C15Arr
+import ArrProofs.Lemmas.C15QR
 /-!
 # C15 — solve, QR, determinant and norm satisfy their defining equations
 
@@ -9,7 +10,9 @@ Model under test: `ArrModel/C15.lean` (`detArr`/`detN`, `solveArr`/`solveMat`/`l
 Scope of what is *proved* here: the algorithms evaluated in exact rational arithmetic.  The Rust evaluates the
 same expressions in `f64`; "to rounding accuracy" is a statement about IEEE arithmetic and is decided by the tie
 (model value vs code value and residual oracles with tolerance `1e-9`), not by these theorems.  The square root of
-`norm` stays symbolic (`Sym.root 2 q`).  Nothing is proved about `qr` beyond the tie (see `claims.d/C15.json`).
+`norm` stays symbolic (`Sym.root 2 q`).  For `qr` the theorems are about the un-normalised Gram–Schmidt vectors
+`us[k]` (rational); the factors are `Q[i][k] = us[k][i] / √nrm2[k]`, `R[k][c] = ru[k][c] / √nrm2[k]`, so the three
+defining equations are stated with the roots multiplied out.
 -/
 namespace ArrModel.C15
 open ArrModel
@@ -45,8 +48,6 @@ theorem solve_mat_spec (n k : Nat) (a b : Mat) (hn : 2 ≤ n) (ha : ∀ i, i < n
   intro r c hr hc
   rw [matMulK, entry_build_lt _ hr hc]
   exact solveMat_apply n k a b hn ha hdet r c hr hc
-
-theorem singTol_pos : 0 < singTol := by unfold singTol; norm_num
 
 /-- **several right-hand sides**: a well-formed `[n, n]` array that passes the singularity test and a well-formed
 `[n, k]` right-hand side give `ok x` with `x` of the shape of `b` and `A · x = b` in row-major coordinates. -/
@@ -218,6 +219,93 @@ theorem norm_inf (a : Arr Rat) (m : Nat) (hm : 0 < m) (hs : a.shape = [m]) (hw :
     exact ⟨x, hx, hxe.symm⟩
   · intro x hx; exact hmax _ (List.mem_map.2 ⟨x, hx, rfl⟩)
 
+/-! ## qr (exact Gram–Schmidt; `Q[i][k] = us[k][i] / √nrm2[k]`, `R[k][c] = ru[k][c] / √nrm2[k]`) -/
+
+/-- **orthonormal columns**: distinct Gram–Schmidt vectors are orthogonal, and `nrm2[k]` is the squared length of the
+`k`-th one — i.e. `(QᵀQ)[j][k] = us[j]·us[k] / (√nrm2[j] √nrm2[k])` is the identity. -/
+theorem qr_orthogonal (n : Nat) (a : Mat) (hnz : (0 : Rat) ∉ (qrMat n a).nrm2) :
+    ∀ j k, j < n → k < n →
+      dotV n ((qrMat n a).us.getD j []) ((qrMat n a).us.getD k []) = if j = k then vget (qrMat n a).nrm2 k else 0 := by
+  intro j k hj hk
+  by_cases h : j = k
+  · rw [if_pos h, vget_nrm2 n a k hk, h]; rfl
+  · rw [if_neg h]
+    exact gramU_orth n (columns n a) (qr_nonzero_of n a hnz) j k (by rw [columns_length]; exact hj)
+      (by rw [columns_length]; exact hk) h
+
+/-- **upper-triangular second factor**: `R[k][c] = 0` below the diagonal -/
+theorem qr_upper (n : Nat) (a : Mat) (hnz : (0 : Rat) ∉ (qrMat n a).nrm2) :
+    ∀ k c, k < n → c < n → c < k → entry (qrMat n a).ru k c = 0 := by
+  intro k c hk hc hck
+  show entry (build n n fun k c => dotV n ((gramU n (columns n a)).getD k []) ((columns n a).getD c [])) k c = 0
+  rw [entry_build_lt _ hk hc, gram_dot_column n (columns n a) (qr_nonzero_of n a hnz) k c
+    (by rw [columns_length]; exact hk) (by rw [columns_length]; exact hc) (le_of_lt hck), if_neg (by omega)]
+
+/-- **the factors multiply back**: `(Q R)[i][c] = Σ_k us[k][i] · ru[k][c] / nrm2[k] = A[i][c]` -/
+theorem qr_product (n : Nat) (a : Mat) (hnz : (0 : Rat) ∉ (qrMat n a).nrm2) :
+    ∀ i c, i < n → c < n →
+      sumTo n (fun k => vget ((qrMat n a).us.getD k []) i * entry (qrMat n a).ru k c / vget (qrMat n a).nrm2 k)
+        = entry a i c := by
+  intro i c hi hc
+  have hnz' := qr_nonzero_of n a hnz
+  have hcl := columns_length n a
+  have hus : (qrMat n a).us = gramU n (columns n a) := rfl
+  simp only [hus]
+  have hcol : vget ((columns n a).getD c []) i = entry a i c := by
+    unfold columns; rw [build_getD _ _ _ _ hc, vget_map_range, if_pos hi]
+  have hru : ∀ k, k < n → entry (qrMat n a).ru k c
+      = dotV n ((gramU n (columns n a)).getD k []) ((columns n a).getD c []) := by
+    intro k hk
+    show entry (build n n fun k c => dotV n ((gramU n (columns n a)).getD k []) ((columns n a).getD c [])) k c = _
+    rw [entry_build_lt _ hk hc]
+  rw [← hcol, column_expand n (columns n a) hnz' c (by rw [hcl]; exact hc) i hi, sumTo_eq_sum, sum_split n c hc]
+  have hmem : ∀ k, k < n → (gramU n (columns n a)).getD k [] ∈ gramU n (columns n a) := by
+    intro k hk
+    rw [getD_eq_getElem' _ _ (by rw [gramU_length, hcl]; exact hk)]; exact List.getElem_mem _
+  -- the diagonal term
+  have hdiag : vget ((gramU n (columns n a)).getD c []) i * entry (qrMat n a).ru c c / vget (qrMat n a).nrm2 c
+      = vget ((gramU n (columns n a)).getD c []) i := by
+    rw [hru c hc, vget_nrm2 n a c hc, gram_dot_column n (columns n a) hnz' c c (by rw [hcl]; exact hc)
+      (by rw [hcl]; exact hc) (le_refl _), if_pos rfl]
+    have := hnz' _ (hmem c hc)
+    field_simp
+  -- the terms above the diagonal vanish
+  have hupper : ∑ r ∈ Finset.range (n - c - 1),
+      vget ((gramU n (columns n a)).getD (c + 1 + r) []) i * entry (qrMat n a).ru (c + 1 + r) c / vget (qrMat n a).nrm2 (c + 1 + r) = 0 := by
+    apply Finset.sum_eq_zero; intro r hr
+    have hr' := Finset.mem_range.1 hr
+    rw [qr_upper n a hnz (c + 1 + r) c (by omega) hc (by omega)]; ring
+  -- the terms below the diagonal are the projections
+  have hlower : ∑ k ∈ Finset.range c,
+      vget ((gramU n (columns n a)).getD k []) i * entry (qrMat n a).ru k c / vget (qrMat n a).nrm2 k
+      = ∑ t ∈ Finset.range c, dotV n ((gramU n (columns n a)).getD t []) ((columns n a).getD c []) /
+        dotV n ((gramU n (columns n a)).getD t []) ((gramU n (columns n a)).getD t []) *
+          vget ((gramU n (columns n a)).getD t []) i := by
+    refine Finset.sum_congr rfl fun k hk => ?_
+    have hk' := Finset.mem_range.1 hk
+    rw [hru k (by omega), vget_nrm2 n a k (by omega)]
+    ring
+  rw [hdiag, hupper, hlower]; ring
+
+/-- `Array::qr` of a square matrix returns the one pair described by `qrMat` -/
+theorem qrArr_matrix (n : Nat) (a : Arr Rat) (hn : 2 ≤ n) (ha : a.shape = [n, n]) :
+    qrArr a = .ok [qrMat n (toMat n n a.elems)] := by
+  unfold qrArr
+  have h2 : ¬ (n < 2) := by omega
+  simp [Arr.ndim, ha, isSquareLast, h2, bind, Res.bind]
+
+/-- **stacks**: `qr` of an `[s, n, n]` array is the list of the factor pairs of its `s` consecutive blocks
+(so the three equations above hold for each matrix of the stack) -/
+theorem qr_stack (s n : Nat) (a : Arr Rat) (hs : 0 < s) (hn : 2 ≤ n) (ha : a.shape = [s, n, n]) (hw : a.WF) :
+    qrArr a = .ok ((List.range s).map fun b => qrMat n (toMat n n ((a.elems.drop (b * (n * n))).take (n * n)))) := by
+  have hlen : a.elems.length = s * (n * n) := by rw [hw, ha]; simp
+  have hnn : 0 < n * n := Nat.mul_pos (by omega) (by omega)
+  have hcount : a.elems.length / (n * n) = s := by rw [hlen]; exact Nat.mul_div_cancel _ hnn
+  unfold qrArr
+  have h2 : ¬ (n < 2) := by omega
+  have hs0 : s ≠ 0 := by omega
+  simp [Arr.ndim, ha, isSquareLast, h2, bind, Res.bind, hcount, hs0, blocks]
+
 /-! ## non-vacuity: concrete instances meeting the hypotheses -/
 
 /-- the pivot-forcing witness of the pinned defect: `[[0,1],[1,0]] x = [2,3]` gives `[3,2]` -/
@@ -231,6 +319,9 @@ example : solveArr ⟨[1, 2, 2, 4], [2, 2]⟩ ⟨[1, 1], [2]⟩ = .err .Singular
 example : detArr ⟨[3, 8, 4, 6], [2, 2]⟩ = .ok ⟨[-14], [1]⟩ := by decide +kernel
 example : detArr ⟨[2, 1, 1, 3, 0, 1, 1, 0, 1, 2, 3, 5], [3, 2, 2]⟩ = .ok ⟨[5, -1, -1], [3]⟩ := by decide +kernel
 example : detByElim 3 (toMat 3 3 [1, 1, 0, 4, 5, 1, 0, 1, 6]) = 5 ∧ detN 3 (toMat 3 3 [1, 1, 0, 4, 5, 1, 0, 1, 6]) = 5 := by
+  decide +kernel
+example : (0 : Rat) ∉ (qrMat 3 (toMat 3 3 [1, 1, 0, 4, 5, 1, 0, 1, 6])).nrm2 := by decide +kernel
+example : (qrMat 2 (toMat 2 2 [2, 1, 1, 3])).us = [[2, 1], [-1, 2]] ∧ (qrMat 2 (toMat 2 2 [2, 1, 1, 3])).ru = [[5, 5], [0, 5]] := by
   decide +kernel
 example : normArr ⟨[3, -4], [2]⟩ (some .inf) none false = .ok ⟨[.rat 4], [1]⟩ := by decide +kernel
 example : normArr ⟨[3, -4], [2]⟩ none none false = .ok ⟨[.root 2 25], [1]⟩ := by decide +kernel
